@@ -1,13 +1,14 @@
 #!/bin/bash
 # ./benign_regress.sh [pattern] — runs every property-PRESERVING change under /verif/benign against the quick checks of
-# the properties anchored in the files it touches (benigntest.sh, scratch worktree each); writes benign/regress.tsv:
-# change, check, exit code (0 = no alarm, as it must be).
+# the properties anchored in the files it touches (benigntest.sh, scratch worktree each; BENIGN_PAR changes at a time,
+# default 1); writes benign/regress.tsv: change, check, exit code (0 = no alarm, as it must be), exhaustive flag.
 cd "$(dirname "$0")"
 PAT=${1:-.}
-declare -A CHECKS=( [G1]="C01 C10 C11 C09 C20" [G2]="C09 C20 C11 C10 C01" [G3]="C02 C19 C10 C13 C01" [G4]="C03 C04 C07 C17 C12 C13 C14" [G5]="C05 C08 C16 C14 C01 C20" [G6]="C12 C13 C14 C03 C04 C15" [G7]="C15 C18 C06 C14 C16 C13" )
-for d in benign/*/; do
-  s=$(basename $d); echo "$s" | grep -Eq "$PAT" || continue
-  g=${s%%-*}
+one() {
+  declare -A CHECKS=( [G1]="C01 C10 C11 C09 C20" [G2]="C09 C20 C11 C10 C01" [G3]="C02 C19 C10 C13 C01" [G4]="C03 C04 C07 C17 C12 C13 C14" [G5]="C05 C08 C16 C14 C01 C20" [G6]="C12 C13 C14 C03 C04 C15" [G7]="C15 C18 C06 C14 C16 C13" )
+  d=$1; s=$(basename $d); g=${s%%-*}
   p=$d/patch.diff; [ -f $d/patch.rebased.diff ] && p=$d/patch.rebased.diff
   ./benigntest.sh $(pwd)/$p ${CHECKS[$g]} 2>&1 | sed "s/^patch does not apply/$s - patch does not apply/"
-done | tee benign/regress.log | grep -E "exit=|does not apply" | awk '{print $1"\t"$2"\t"$3}' > benign/regress.tsv
+}
+export -f one
+ls -d benign/*/ | while read d; do basename $d | grep -Eq "$PAT" && echo $d; done | xargs -P ${BENIGN_PAR:-1} -I{} bash -c 'one {}' | tee benign/regress.log | grep -E "exit=|does not apply" | awk '{print $1"\t"$2"\t"$3"\t"$4}' > benign/regress.tsv
